@@ -201,7 +201,8 @@ def gen_item(rng, zeroize_ok=True):
         attrs.insert(rng.randrange(len(attrs) + 1),
                      Attr('dw', metas_body([MNameValue('crate', pick(rng, ['path', 'str']),
                                                        (lambda r: PA(r, 1) if chance(rng, 0.2) else P(r))(
-                                                           pick(rng, ['dw', '::dw::inner', 'derive_where', '::derive_where'])))])))
+                                                           pick(rng, ['dw', '::dw::inner', 'derive_where', '::derive_where'])))],
+                                           trailing=chance(rng, 0.3))))
     # repr
     repr_int = None
     if kind == 'enum':
